@@ -39,6 +39,11 @@ impl D {
         }
     }
     fn show(&self) -> String { format!("{:?}", self) }
+    /// `update` takes every parameter as an f64: integer parameters survive the round trip exactly below 2^53
+    fn params_exact(&self) -> bool {
+        match *self { Binomial(n, _) => n < (1u64 << 53), ChiSquared(k) => (k as u64) < (1u64 << 53),
+            DiscreteUniform(a, b) => a.unsigned_abs() < (1u64 << 53) && b.unsigned_abs() < (1u64 << 53), _ => true }
+    }
 
     // ---- the implementation, through the public API (constructors may panic)
     pub fn pdf(&self, x: f64) -> f64 {
@@ -75,6 +80,29 @@ impl D {
             Binomial(n, p) => compute::distributions::Binomial::new(n, p).pmf(k),
             DiscreteUniform(a, b) => compute::distributions::DiscreteUniform::new(a, b).pmf(k),
             Poisson(l) => compute::distributions::Poisson::new(l).pmf(k),
+            _ => panic!("not discrete"),
+        }
+    }
+    // ---- the same parameter setting reached through `update` from another valid one (oracle only: "every valid parameter
+    //      setting" does not depend on how the object got there; a cached normaliser must follow the parameters)
+    pub fn pdf_upd(&self, x: f64) -> (f64, f64) {
+        use compute::distributions as cd;
+        macro_rules! via { ($o:expr, $p:expr) => {{ let mut d = $o; d.update(&$p); (d.pdf(x), d.ln_pdf(x)) }} }
+        match *self {
+            Beta(a, b) => via!(cd::Beta::new(2.5, 1.5), [a, b]), ChiSquared(k) => via!(cd::ChiSquared::new(7), [k as f64]),
+            Exponential(l) => via!(cd::Exponential::new(2.5), [l]), Gamma(a, b) => via!(cd::Gamma::new(2.5, 1.5), [a, b]),
+            Gumbel(m, b) => via!(cd::Gumbel::new(1.0, 2.0), [m, b]), Normal(m, sd) => via!(cd::Normal::new(1.0, 2.0), [m, sd]),
+            Pareto(a, m) => via!(cd::Pareto::new(3.0, 2.0), [a, m]), T(n) => via!(cd::T::new(5.0), [n]),
+            Uniform(a, b) => via!(cd::Uniform::new(-1.0, 1.0), [a, b]),
+            _ => panic!("not continuous"),
+        }
+    }
+    pub fn pmf_upd(&self, k: i64) -> f64 {
+        use compute::distributions as cd;
+        macro_rules! via { ($o:expr, $p:expr) => {{ let mut d = $o; d.update(&$p); d.pmf(k) }} }
+        match *self {
+            Bernoulli(p) => via!(cd::Bernoulli::new(0.3), [p]), Binomial(n, p) => via!(cd::Binomial::new(12, 0.3), [n as f64, p]),
+            DiscreteUniform(a, b) => via!(cd::DiscreteUniform::new(-3, 4), [a as f64, b as f64]), Poisson(l) => via!(cd::Poisson::new(3.5), [l]),
             _ => panic!("not discrete"),
         }
     }
@@ -340,8 +368,9 @@ pub fn oracle(tier: &str, seed: u64) -> (u64, Vec<Finding>) {
             for k in points_disc(d, &mut r, npts) {
                 tried += 1;
                 let want = d.ref_pmf(k);
-                crumb(&format!("{} k={}", d.show(), k));
-                match catch(|| d.pmf(k)) {
+                let via = tried % 2 == 1 && d.params_exact();
+                crumb(&format!("{} k={}{}", d.show(), k, if via { " (object reached through update from another setting)" } else { "" }));
+                match catch(|| if via { d.pmf_upd(k) } else { d.pmf(k) }) {
                     Err(_) => fail(format!("{}:pmf-fails", nm), 1.0, format!("{}.pmf({}) panics; the mass there is {:e}", d.show(), k, want), format!("{} k={}", d.show(), k)),
                     Ok(got) => {
                         let err = (got - want).abs();
@@ -358,8 +387,9 @@ pub fn oracle(tier: &str, seed: u64) -> (u64, Vec<Finding>) {
             for x in points_cont(d, &mut r, npts) {
                 tried += 1;
                 let want = d.ref_pdf(x);
-                crumb(&format!("{} x={:e}", d.show(), x));
-                match catch(|| (d.pdf(x), d.ln_pdf(x))) {
+                let via = tried % 2 == 1 && d.params_exact();
+                crumb(&format!("{} x={:e}{}", d.show(), x, if via { " (object reached through update from another setting)" } else { "" }));
+                match catch(|| if via { d.pdf_upd(x) } else { (d.pdf(x), d.ln_pdf(x)) }) {
                     Err(_) => fail(format!("{}:pdf-fails", nm), 1.0, format!("{}.pdf({:e}) panics; the density there is {:e}", d.show(), x, want), format!("{} x={:e}", d.show(), x)),
                     Ok((got, lgot)) => {
                         let err = (got - want).abs();
